@@ -1,4 +1,5 @@
 use super::*;
+use crate::cache::AsyncLruCacheEntry;
 use crate::error::Qcow2Result;
 use crate::meta::{L2Entry, SplitGuestOffset, Table};
 
@@ -68,10 +69,53 @@ impl<T: Qcow2IoOps> Qcow2Dev<T> {
             stop
         );
 
+        // host clusters to release, and the l2 slices in which mapping is cleared
+        let mut released = Vec::new();
+        let mut slices: Vec<(usize, AsyncLruCacheEntry<L2TableHandle>)> = Vec::new();
+
         let mut guest = start;
         while guest < stop {
-            self.__discard_one_cluster(guest).await?;
+            self.__discard_one_cluster(guest, &mut released, &mut slices)
+                .await?;
             guest += cluster_size;
+        }
+
+        if released.is_empty() {
+            return Ok(());
+        }
+
+        // respect meta update order: the cleared mapping has to reach disk
+        // before the refcount is decreased, otherwise the mapping on disk may
+        // point to one free cluster after crash. Any new mapping in these
+        // slices needs its refcount on disk first.
+        {
+            // one flusher at a time, as flush_meta() does
+            let _flush_lock = self.flush_lock.lock().await;
+
+            self.flush_refcount().await?;
+            self.flush_cache_entries(slices).await?;
+            self.call_fsync(0, usize::MAX, 0).await?;
+        }
+
+        for (host_cluster, host_count) in released {
+            // Punch the host file so the OS reclaims the bytes. The
+            // FALLOCATE_ZERO_RANGE flag asks for both hole-punch + reads-as-
+            // zero semantics. On filesystems that don't support either,
+            // call_fallocate falls back to writing zeros (see `call_fallocate`
+            // implementation), so the LBPRZ-equivalent contract still holds.
+            //
+            // The cluster is punched before it is released: once its refcount
+            // drops to zero it may be allocated and written by someone else
+            // at any time, and a late punch would wipe that data.
+            let punch_len = host_count * info.cluster_size();
+            self.call_fallocate(host_cluster, punch_len, Qcow2OpsFlags::FALLOCATE_ZERO_RANGE)
+                .await?;
+
+            // Refcount-release the host cluster(s). For ordinary (non-
+            // compressed) entries this is always a single cluster, but we
+            // pass `host_count` through to mirror the existing free_clusters
+            // call sites in the COW path.
+            self.free_clusters(host_cluster, host_count).await?;
         }
 
         Ok(())
@@ -84,7 +128,12 @@ impl<T: Qcow2IoOps> Qcow2Dev<T> {
     /// no-op. The only errors are propagated from `free_clusters` /
     /// `call_fallocate` failures (genuine IO errors on the host file
     /// or refcount metadata).
-    async fn __discard_one_cluster(&self, guest_offset: u64) -> Qcow2Result<()> {
+    async fn __discard_one_cluster(
+        &self,
+        guest_offset: u64,
+        released: &mut Vec<(u64, usize)>,
+        slices: &mut Vec<(usize, AsyncLruCacheEntry<L2TableHandle>)>,
+    ) -> Qcow2Result<()> {
         let info = &self.info;
         debug_assert_eq!(info.in_cluster_offset(guest_offset), 0);
         let split = SplitGuestOffset(guest_offset);
@@ -138,20 +187,12 @@ impl<T: Qcow2IoOps> Qcow2Dev<T> {
         self.mark_need_flush(true);
         drop(l2_table);
 
-        // Refcount-release the host cluster(s). For ordinary (non-
-        // compressed) entries this is always a single cluster, but we
-        // pass `host_count` through to mirror the existing free_clusters
-        // call sites in the COW path.
-        self.free_clusters(host_cluster, host_count).await?;
-
-        // Punch the host file so the OS reclaims the bytes. The
-        // FALLOCATE_ZERO_RANGE flag asks for both hole-punch + reads-as-
-        // zero semantics. On filesystems that don't support either,
-        // call_fallocate falls back to writing zeros (see `call_fallocate`
-        // implementation), so the LBPRZ-equivalent contract still holds.
-        let punch_len = host_count * info.cluster_size();
-        self.call_fallocate(host_cluster, punch_len, Qcow2OpsFlags::FALLOCATE_ZERO_RANGE)
-            .await?;
+        // released by discard() after the cleared mapping is flushed
+        released.push((host_cluster, host_count));
+        let key = split.l2_slice_key(info);
+        if !slices.iter().any(|(k, _)| *k == key) {
+            slices.push((key, l2_handle.clone()));
+        }
 
         Ok(())
     }
